@@ -1,10 +1,11 @@
 /-
 Property C12 / C10, text level: the data lines the assembler emits for numeric definitions are read
 back by the loader as exactly that definition, for EVERY value — `set n`, `db n`, `db -n`, `dw n`,
-`dw -n`, `db [n]`, `dw [n]` rendered with the decimal `toString` the assembler uses (`format!("{}")`).
+`dw -n`, `db [n]`, `dw [n]`, `db [v , n]`, `dw [v , n]` rendered with the decimal `toString` the
+assembler uses (`format!("{}")`), and `db "t"` / `dw "t"` for every ASCII text without a quote.
 So the textual hand-over between assembler and loader loses nothing for these forms
-(`parse_render_*`); string definitions and the two-argument arrays are tied by the correspondence
-runs only.
+(`parse_render_*`); negative fill values of two-argument arrays are tied by the correspondence runs
+only.
 -/
 import Emu8086.Model.Loader
 import Std.Data.String.ToNat
@@ -244,6 +245,103 @@ theorem emitted_db (x : Int) : s!"db {x}" = "db" ++ " " ++ toString x := by
   show "db " ++ toString x = _; rw [show ("db " : String) = "db" ++ " " from rfl]
 theorem emitted_dw (x : Int) : s!"dw {x}" = "dw" ++ " " ++ toString x := by
   show "dw " ++ toString x = _; rw [show ("dw " : String) = "dw" ++ " " from rfl]
+
+theorem lexD_comma (fuel : Nat) (rest : List Char) (acc : List DTok) : lexD (fuel + 1) (',' :: rest) acc = lexD fuel rest (.comma :: acc) := by
+  simp [lexD, isWs]
+
+/-- `kw [v , n]` with a non-negative fill value -/
+theorem lex_kw_arr2 (kw : String) (k : List Char) (hk : kw.toList = k) (hk1 : 1 ≤ k.length)
+    (hlex : ∀ fuel rest acc, lexD (fuel + 1) (k ++ ' ' :: rest) acc = lexD fuel (' ' :: rest) (.kw kw :: acc)) (v n : Nat) :
+    lexD ((kw ++ " [" ++ toString v ++ " , " ++ toString n ++ "]").toList.length + 1) (kw ++ " [" ++ toString v ++ " , " ++ toString n ++ "]").toList []
+      = some [.kw kw, .lbr, .num v, .comma, .num n, .rbr] := by
+  have hl : (kw ++ " [" ++ toString v ++ " , " ++ toString n ++ "]").toList =
+      k ++ ' ' :: '[' :: (Nat.toDigits 10 v ++ ' ' :: ',' :: ' ' :: (Nat.toDigits 10 n ++ [']'])) := by
+    simp [String.toList_append, hk, toString_nat_toList]
+  rw [hl]
+  have hpv := List.length_pos_iff.mpr (toDigits_ne_nil v)
+  have hpn := List.length_pos_iff.mpr (toDigits_ne_nil n)
+  have hlen : (k ++ ' ' :: '[' :: (Nat.toDigits 10 v ++ ' ' :: ',' :: ' ' :: (Nat.toDigits 10 n ++ [']']))).length + 1
+      = ((Nat.toDigits 10 v).length + (Nat.toDigits 10 n).length + k.length - 3) + 1 + 1 + 1 + 1 + 1 + 1 + 1 + 1 + 1 + 1 := by
+    simp only [List.length_append, List.length_cons, List.length_nil]; omega
+  rw [hlen, hlex, lexD_blank, lexD_lbr,
+    lexD_digits _ _ _ _ (toDigits_ne_nil v) (digits_all v) (by simp [noDigitAhead]),
+    lexD_blank, lexD_comma, lexD_blank,
+    lexD_digits _ _ [']'] _ (toDigits_ne_nil n) (digits_all n) (by simp [noDigitAhead]),
+    lexD_rbr, lexD_end, natOfDigits_toDigits, natOfDigits_toDigits]; rfl
+
+/-- **`db [v , n]` / `dw [v , n]`** (non-negative fill value): n copies of v -/
+theorem parse_render_db_arr2 (v n : Nat) :
+    parseData ("db" ++ " [" ++ toString v ++ " , " ++ toString n ++ "]")
+      = if v ≤ 255 ∧ n ≤ 65535 then some (.dbArr (BitVec.ofNat 8 v) n) else none := by
+  unfold parseData
+  simp only [lex_kw_arr2 "db" "db".toList rfl (by decide) lex_db v n]
+  by_cases hv : v ≤ 255 <;> by_cases hn : n ≤ 65535 <;> simp [sByte, uWord, hv, hn, bind, Option.bind]
+theorem parse_render_dw_arr2 (v n : Nat) :
+    parseData ("dw" ++ " [" ++ toString v ++ " , " ++ toString n ++ "]")
+      = if v ≤ 65535 ∧ n ≤ 65535 then some (.dwArr (BitVec.ofNat 16 v) n) else none := by
+  unfold parseData
+  simp only [lex_kw_arr2 "dw" "dw".toList rfl (by decide) lex_dw v n]
+  by_cases hv : v ≤ 65535 <;> by_cases hn : n ≤ 65535 <;> simp [sWord, uWord, hv, hn, bind, Option.bind]
+
+theorem takeWhile_all (p : Char → Bool) (l : List Char) (h : ∀ c ∈ l, p c = true) : l.takeWhile p = l := by
+  induction l with
+  | nil => rfl
+  | cons a as ih => simp [List.takeWhile, h a (by simp), ih (fun c hc => h c (by simp [hc]))]
+
+/-- the quote positions of `t ++ ["\""]` when `t` has no quote: just the last one -/
+theorem quote_idxs (t : List Char) (hq : ∀ c ∈ t, c ≠ '"') :
+    ((List.range (t ++ ['"']).length).filter (fun k => (t ++ ['"'])[k]! == '"')).getLast? = some t.length := by
+  have hlen : (t ++ ['"']).length = t.length + 1 := by simp
+  rw [hlen, List.range_succ, List.filter_append]
+  have h1 : (List.range t.length).filter (fun k => (t ++ ['"'])[k]! == '"') = [] := by
+    rw [List.filter_eq_nil_iff]
+    intro k hk
+    have hk' : k < t.length := List.mem_range.mp hk
+    have : (t ++ ['"'])[k]! = t[k] := by
+      rw [getElem!_pos (t ++ ['"']) k (by simp; omega), List.getElem_append_left hk']
+    rw [this]
+    simpa using hq _ (List.getElem_mem hk')
+  have h2 : [t.length].filter (fun k => (t ++ ['"'])[k]! == '"') = [t.length] := by
+    have : (t ++ ['"'])[t.length]! = '"' := by
+      rw [getElem!_pos (t ++ ['"']) t.length (by simp)]; simp
+    simp [this]
+  rw [h1, h2]; rfl
+
+/-- the lexer reads `"t"` (t ASCII, without a quote, at the end of the line) as the string token of t's bytes -/
+theorem lexD_string (fuel : Nat) (t : List Char) (acc : List DTok) (ha : ∀ c ∈ t, c.toNat < 128) (hq : ∀ c ∈ t, c ≠ '"') :
+    lexD (fuel + 1) ('"' :: (t ++ ['"'])) acc = lexD fuel [] (.str (t.map (fun d => UInt8.ofNat d.toNat)) :: acc) := by
+  have hrun : (t ++ ['"']).takeWhile (fun d => decide (d.toNat < 128)) = t ++ ['"'] := by
+    apply takeWhile_all
+    intro c hc
+    rcases List.mem_append.mp hc with h | h
+    · simpa using ha c h
+    · simp at h; subst h; decide
+  simp only [lexD, show isWs '"' = false by decide, show ('"' == '[') = false by decide, show ('"' == ']') = false by decide,
+    show ('"' == ',') = false by decide, show Char.isDigit '"' = false by decide, show ('"' == '-') = false by decide,
+    show ('"' == '"') = true by decide, Bool.false_eq_true, if_false, if_true, hrun, quote_idxs t hq]
+  simp
+
+/-- **`db "t"` / `dw "t"`** (t ASCII without a quote): the string definition with t's bytes -/
+theorem parse_render_db_str (t : String) (ha : ∀ c ∈ t.toList, c.toNat < 128) (hq : ∀ c ∈ t.toList, c ≠ '"') :
+    parseData ("db" ++ " \"" ++ t ++ "\"") = some (.dbStr (t.toList.map (fun d => UInt8.ofNat d.toNat))) := by
+  unfold parseData
+  have hl : ("db" ++ " \"" ++ t ++ "\"").toList = "db".toList ++ ' ' :: '"' :: (t.toList ++ ['"']) := by
+    simp [String.toList_append]
+  have hlen : ("db".toList ++ ' ' :: '"' :: (t.toList ++ ['"'])).length + 1 = (t.toList.length + 2) + 1 + 1 + 1 + 1 := by
+    simp only [List.length_append, List.length_cons, List.length_nil, show "db".toList.length = 2 from rfl]; omega
+  simp only [hl]
+  rw [hlen, lex_db, lexD_blank, lexD_string _ _ _ ha hq, lexD_end]
+  rfl
+theorem parse_render_dw_str (t : String) (ha : ∀ c ∈ t.toList, c.toNat < 128) (hq : ∀ c ∈ t.toList, c ≠ '"') :
+    parseData ("dw" ++ " \"" ++ t ++ "\"") = some (.dwStr (t.toList.map (fun d => UInt8.ofNat d.toNat))) := by
+  unfold parseData
+  have hl : ("dw" ++ " \"" ++ t ++ "\"").toList = "dw".toList ++ ' ' :: '"' :: (t.toList ++ ['"']) := by
+    simp [String.toList_append]
+  have hlen : ("dw".toList ++ ' ' :: '"' :: (t.toList ++ ['"'])).length + 1 = (t.toList.length + 2) + 1 + 1 + 1 + 1 := by
+    simp only [List.length_append, List.length_cons, List.length_nil, show "dw".toList.length = 2 from rfl]; omega
+  simp only [hl]
+  rw [hlen, lex_dw, lexD_blank, lexD_string _ _ _ ha hq, lexD_end]
+  rfl
 
 /-! ### C10 for data lines: what the assembler emits for numeric definitions, the loader accepts -/
 
